@@ -273,7 +273,17 @@ def gen_interp(rng, ctx, k):
     return c
 
 
+def natlist(l):
+    return '[' + '; '.join('%d' % v for v in l) + ']%nat'
+
+
 def interp_terms(c, r):
+    if len(c['shape']) > 1:
+        # n-D: one case for the whole array (flat, C order) with the index lists of its lines
+        xv = 'None' if c['xval'] is None else '(Some %s)' % qlist(c['xval'])
+        e = '(QOk %s)' % qlist(r['ok']) if 'ok' in r else 'QErr'
+        return [(0, '(CInterpND %s %s %s %s %s)' % (qlist(c['y']), blist([m != 0 for m in c['mask']]), xv,
+                                                   C.coq_list([natlist(ln) for ln in c['_lines']]), e))]
     out = []
     for li, ln in enumerate(c['_lines']):
         ys = [c['y'][p] for p in ln]
@@ -439,7 +449,7 @@ def correspond(ctx, proof_ok=True):
     calls = []                                   # (bits index, call)
     for k in range(ctx.n(700, 12000)):
         calls.append((0, gen_reject(rng, ctx, k)))
-    for k in range(ctx.n(350, 6000)):
+    for k in range(ctx.n(600, 8000)):
         calls.append((0, gen_interp(rng, ctx, k)))
     for k in range(ctx.n(250, 4000)):
         calls.append((0, gen_aesth(rng, ctx, k)))
@@ -507,8 +517,8 @@ def correspond(ctx, proof_ok=True):
     ctx.coverage.update({
         'evaluations': len(terms),
         'distinct_nontrivial': len(set(t for _, _, t in terms)),
-        'rule': 'one evaluation = one call of djs_reject / aesthetics / djs_median(reflect), or one 1-D line of a '
-                'djs_maskinterp call, or one row of a skymask call, whose observed output is compared inside Coq with the '
+        'rule': 'one evaluation = one call of djs_reject / aesthetics / djs_median(reflect) / djs_maskinterp (1-D: the '
+                'vector; n-D: the whole array with the index lists of its lines), or one row of a skymask call, whose observed output is compared inside Coq with the '
                 'transliterated model M (bit 1) and with the specification S (bit 2); distinct = distinct Coq case terms',
         'calls_by_function_and_outcome': dist,
         'reject': {'grow': {str(g): sum(1 for c, _ in rej if c['grow'] == g) for g in range(5)},
